@@ -16,4 +16,5 @@ CONSTANTS
 INIT Init
 NEXT Next
 INVARIANT Causal
+PROPERTY VarClocksMonotone
 CHECK_DEADLOCK FALSE
